@@ -11,7 +11,8 @@ EXPLANATION = (
     '`clear` under the aborted flag; in that arm the removed task\'s finished flag is stored (>= Release) before its join handles are '
     'woken; Completed is produced only from Poll::Ready or an aborted task, Cancelled only from the eviction test; R07.c the eviction '
     'test depends on the poll result being Pending (Suspended), on the woken flag and on Arc::strong_count of the per-poll waker, read '
-    'after the executor\'s own Waker copy was dropped. NOT decided: exactness of the waker-count heuristic — whether "no surviving '
+    'after the executor\'s own Waker copy was dropped; R07.d every hand-written poll function of crux_core and crux_time that returns Pending has '
+    'kept a clone of the waker of the current poll (the premise under which "no clone survives" means "cannot be woken"). NOT decided: exactness of the waker-count heuristic — whether "no surviving '
     'waker clone" coincides with "can never be woken" for every mix of joins, selects, channels and self-waking futures depends on '
     'what arbitrary user futures do with wakers at run time.')
 
@@ -181,4 +182,13 @@ def check(ctx, rep):
     same = bool(counts) and bool(wloads) and any(o.kind == 'call' and call_matches(o.term, ['alloc::sync::Arc::new']) for o in origins(rt, counts[0][1]['args'][0]))
     rep.expect('R07.c', same, 'count-on-poll-waker', 'strong_count is taken on the Arc<CommandWaker> created for this poll',
                'the waker count in Command::run_task is not taken on the waker created for this poll')
+    # R07.d: the premise of the eviction test for the futures crux itself provides
+    from rules.props import c05
+    rep.rule('R07.d', 'every future provided by crux that stays Pending holds a clone of the current poll\'s waker (or is deliberately unwakeable): '
+             'the eviction test counts clones of that waker', floor=7)
+    time = ctx.crate('default', 'crux_time')
+    if time is None:
+        rep.missing('R07.d', 'crux_time facts')
+    else:
+        c05.check_pending_wakers(rep, 'R07.d', core, time)
     rep.assume('NOT DECIDED: exactness of the waker-count heuristic for arbitrary user futures')
